@@ -30,6 +30,38 @@ used.  Decided per program:
         of its decoded input wires, tagged units at their creation rate (part
         of the signature);
   (v)   SynthDef(...) / as_bytes() do not raise.
+
+Round 9 - two classes of behaviour the 40 unit classes of the first table did
+not reach (shards x*, vf.gen_graph.gen_program(extra=True), a case stream of
+its own; the g* stream is unchanged):
+
+  (A) "only side-effect-free units that nothing references may be dropped" was
+      exercised with noise units, Line, FreeSelf, SendTrig, Out and the
+      width-first units only.  Now every kind of side effect beyond the output
+      the server documentation knows is placed in the graphs, mostly as a
+      statement whose output nothing reads: done actions (DetectSilence, XLine,
+      Linen, EnvGen, PlayBuf, Duty, TDuty, DemandEnvGen, RecordBuf; action a
+      constant 1-14 or a control), node control (PauseSelf, Free, Pause,
+      FreeSelfWhenDone, PauseSelfWhenDone on a unit with a done flag),
+      messages (SendReply, SendPeakRMS, Poll, Dpoll, CheckBadValues), buffer
+      and bus writes (RecordBuf, BufWr, DelTapWr, ScopeOut, DiskOut, Dbufwr,
+      XOut).  Monitor (i) applies unchanged: each must be in the definition
+      exactly once with the inputs of the source.  A unit whose only effect is
+      its done action and whose action is the constant 0 has no effect: it is
+      held to the rule of stateful units (may be dropped when unreferenced).
+      Which of these classes the library itself marks as removable (a base
+      class with PureUGenMixin) is read from the class tree at run time and
+      reported as evidence; the verdict only comes from the emitted bytes.
+  (B) rate law (iv) with the fourth rate: demand-rate units (Dseq, Dser,
+      Dshuf, Drand, Dxrand, Dseries, Dgeom, Dwhite, Diwhite, Dbrown, Dibrown,
+      wrapped by Dstutter, Dswitch1, Dswitch, Dreset, Dconst, Dbufrd, Dbufwr,
+      Dpoll) as operands of unary / binary operators together with numbers,
+      scalar, control and audio rate signals and each other, on either side,
+      behind neutral constants and `d + (-x)` / `d - (-x)`, pulled by Demand,
+      Duty, TDuty, DemandEnvGen.  An operation on a demand-rate value is
+      demand rate (the library's documented order demand > audio > control >
+      scalar, rate numbers 3 > 2 > 1 > 0 in the definition), so (iv) is the
+      same maximum over the decoded input wires.
 """
 
 import json
@@ -58,7 +90,13 @@ RULE = ("seeded random graph functions as data (vf/gen_graph.py, profile c01): "
         "units, madd/Sum3/Sum4/operators expanded over channel lists whose "
         "channels run at different rates (each channel to a sink of its own "
         "rate), width-first units (RandSeed, RandID, LocalBuf with SetBuf / "
-        "ClearBuf) between the arithmetic; <= 60 units, depth <= 7.  A program is non-trivial when at "
+        "ClearBuf) between the arithmetic; <= 60 units, depth <= 7.  Shards x*: "
+        "the same plus 21 classes of units with a side effect beyond their "
+        "output (done actions, node control, messages, buffer / bus writes), "
+        "70 % of them as statements whose output nothing reads, and demand-"
+        "rate expressions (19 demand-rate classes under unary / binary "
+        "operators with numbers, ir / kr / ar signals and each other) pulled "
+        "by Demand / Duty / TDuty / DemandEnvGen.  A program is non-trivial when at "
         "least one optimiser rewrite, constructor shortcut or dead-code removal "
         "fired while it was compiled; distinct = hash of the program data")
 ASSUMPTIONS = [
@@ -70,6 +108,17 @@ ASSUMPTIONS = [
     "K2A/A2K/DC; every other unit is an uninterpreted function",
     "counters of fired rewrites are read by wrapping sc3 internals (evidence "
     "only, never part of a verdict)",
+    "purity table of the extension (vf/gen_graph.py:EXT_UGENS): which unit "
+    "classes have a side effect beyond their output (done action, node "
+    "control, message to clients / post window, buffer or bus write, shared "
+    "random generator) and the order of their inputs are transcribed from the "
+    "SuperCollider class and server documentation; a done-action-only unit "
+    "with the constant action 0 counts as side-effect free.  The library's own "
+    "marker (PureUGenMixin among the bases, _optimize_graph not overridden) is "
+    "read at run time for the evidence counters effect_class_* only",
+    "demand rate is rate number 3 in a definition and the highest rate "
+    "(library comment and server documentation); fused MulAdd / Sum3 / Sum4 "
+    "on demand-rate operands are outside the generated domain",
 ]
 MIN_COUNTERS = {
     'programs_compiled': 300, 'wires_compared': 3000,
@@ -80,19 +129,48 @@ MIN_COUNTERS = {
     'fired_shortcut_BinaryOpUGen': 50, 'fired_shortcut_MulAdd': 10,
     'operator_units_opcode_checked': 300, 'feature_mixed-rate-channels': 500,
     'feature_width-first-unit': 500, 'width_first_pairs_checked': 1000,
-    'feature_array-control-arithmetic': 300, 'folding_agnostic_programs': 2000,
+    'feature_array-control-arithmetic': 200, 'folding_agnostic_programs': 1500,
     'feature_infinite-constant': 300, 'feature_number-channel-in-list': 300,
     'programs_compiled_after_a_width_first_definition': 1000,
+    # round 9 (x shards; thresholds leave room for a machine shared 6-fold)
+    'feature_effect-unit': 400, 'feature_effect-unit-output-unused': 300,
+    'effect_units_unreferenced_must_stay': 1000,
+    'max_effect_unit_classes_unreferenced': 25,
+    'effect_unreferenced_DetectSilence': 20, 'effect_unreferenced_EnvGen': 20,
+    'effect_unreferenced_XLine': 20, 'effect_unreferenced_Linen': 20,
+    'effect_unreferenced_PlayBuf': 20, 'effect_unreferenced_RecordBuf': 20,
+    'effect_unreferenced_BufWr': 20, 'effect_unreferenced_DelTapWr': 20,
+    'effect_unreferenced_DiskOut': 20, 'effect_unreferenced_ScopeOut': 20,
+    'effect_unreferenced_Free': 20, 'effect_unreferenced_Pause': 20,
+    'effect_unreferenced_PauseSelf': 20,
+    'effect_unreferenced_FreeSelfWhenDone': 20,
+    'effect_unreferenced_PauseSelfWhenDone': 20,
+    'effect_unreferenced_SendReply': 20, 'effect_unreferenced_SendPeakRMS': 20,
+    'effect_unreferenced_Poll': 20, 'effect_unreferenced_CheckBadValues': 20,
+    'effect_unreferenced_XOut': 20, 'effect_unreferenced_Duty': 20,
+    'effect_unreferenced_TDuty': 20, 'effect_unreferenced_DemandEnvGen': 20,
+    'done_action_zero_units': 40, 'max_effect_class_in_library': 40,
+    'feature_demand-rate': 400, 'feature_demand-with-control-or-audio': 200,
+    'arith_units_with_demand_input': 1000,
+    'arith_units_demand_and_control_input': 200,
+    'arith_units_demand_and_audio_input': 200,
+    'unary_units_with_demand_input': 100,
 }
 
 
 def plan(tier, seed):
     total = 90000 if tier == 'quick' else 1_200_000
-    parts = 12 if tier == 'quick' else 16
+    parts = 12      # + 4 x shards = 16 workers
     secs = 40 if tier == 'quick' else 600
-    return [{'name': f'g{p}', 'mode': 'nrt', 'kind': 'g', 'first_case': f,
-             'n': n, 'secs': secs, 'hard_timeout': secs + 150}
-            for p, (f, n) in enumerate(split(total, parts))]
+    shards = [{'name': f'g{p}', 'mode': 'nrt', 'kind': 'g', 'first_case': f,
+               'n': n, 'secs': secs, 'hard_timeout': secs + 150}
+              for p, (f, n) in enumerate(split(total, parts))]
+    # round 9: side-effecting units as statements, demand-rate operands
+    xtotal = 30000 if tier == 'quick' else 400_000
+    shards += [{'name': f'x{p}', 'mode': 'nrt', 'kind': 'x', 'first_case': f,
+                'n': n, 'secs': secs, 'hard_timeout': secs + 150}
+               for p, (f, n) in enumerate(split(xtotal, 4))]
+    return shards
 
 
 # ---------------------------------------------------------------------------
@@ -157,12 +235,14 @@ class DecodedEval:
                 self.vals.append(out)
                 continue
             if cls in gg.ARITH_CLASSES:
-                want = max([wrate(w) for w in u.inputs], default=0)
+                wrs = [wrate(w) for w in u.inputs]
+                want = max(wrs, default=0)
                 if u.rate != want or u.out_rates != [u.rate]:
                     self.rate_problems.append((
-                        f'C01/arith-rate-not-max/{cls}',
-                        f'unit {u.index} {u!r}: input wire rates '
-                        f'{[wrate(w) for w in u.inputs]}'))
+                        f'C01/arith-rate-not-max/{cls}'
+                        + ('/demand-rate-input' if 3 in wrs else ''),
+                        f'unit {u.index} {u!r}: input wire rates {wrs} '
+                        f'(0 scalar, 1 control, 2 audio, 3 demand)'))
                 v = None
                 desc = cls
                 if cls == 'BinaryOpUGen':
@@ -249,6 +329,19 @@ def compare(prog, d, rho, gg, oc, stats):
     problems = []
 
     s_cnt, s_live, s_rec, s_nodes = Counter(), Counter(), {}, {}
+    if prog.get('extra'):
+        refs = {o[1] for nd in prog['nodes'] for o in gg.operands_of(nd)
+                if o[0] == 'n'}
+        for u in src.units:
+            if u['cls'] not in gg.EXT_UGENS:
+                continue
+            if u['eff'] == 'effect' and u['node'] not in refs:
+                stats['effect_units_unreferenced_must_stay'] += 1
+                stats['effect_unreferenced_' + u['cls']] += 1
+            elif u['eff'] == 'effect':
+                stats['effect_units_referenced'] += 1
+            elif u['cls'] in gg.DONE_ACTION_ONLY:
+                stats['done_action_zero_units'] += 1
     for u in src.units:
         s_cnt[u['sig']] += 1
         s_rec[u['sig']] = u
@@ -309,6 +402,19 @@ def compare(prog, d, rho, gg, oc, stats):
         return dec.rate_problems[:1]
 
     # ---- diagnosis: name the mechanism --------------------------------------
+    if prog.get('extra') and not LOST_IN_SORT:
+        # a side-effecting unit that is gone (fewer units of its class than
+        # the function created) is the root; units only it read follow
+        n_src = Counter(u['cls'] for u in src.units if u['eff'] == 'effect')
+        n_dec = Counter(u['cls'] for u in dec.units)
+        for u, s, lv, c in bad_src:
+            if u['eff'] == 'effect' and n_dec[u['cls']] < n_src[u['cls']]:
+                return [(f'C01/unit-missing/{u["cls"]}',
+                         f'node v{u["node"]} (side-effecting, '
+                         f'{"output not read" if u["node"] not in refs else "output read"}'
+                         f'): the function creates {n_src[u["cls"]]} '
+                         f'{u["cls"]} unit(s), the definition has '
+                         f'{n_dec[u["cls"]]}')]
     lost_inf = [x for x in src_inf if x not in d.constants]
     if lost_inf:
         big = [c for c in d.constants if abs(c) > 1e38 and abs(c) != float('inf')]
@@ -616,6 +722,56 @@ def mechanism_suffix(prog, exc=None, site=None):
     return ''
 
 
+def purity_census(gg, acc):
+    """which of the side-effecting classes of the documentation based table
+    the library's class tree marks as removable (evidence only)"""
+    try:
+        import sc3.synth.ugens as ugens
+        from sc3.synth import ugen as ugn
+    except Exception:
+        return
+    mixin = getattr(ugn, 'PureUGenMixin', None)
+    n_lib = n_pure = n_exempt = 0
+    for name, ent in gg.UGENS.items():
+        if ent['eff'] != 'effect' or ent.get('implicit'):
+            continue
+        cls = getattr(ugens, name, None)
+        if not isinstance(cls, type):
+            acc.count('max_effect_class_not_in_library_' + name, 1)
+            continue
+        n_lib += 1
+        if mixin is not None and mixin in cls.__mro__:
+            n_pure += 1
+            owner = next((k for k in cls.__mro__
+                          if '_optimize_graph' in k.__dict__), None)
+            if owner is not mixin:
+                n_exempt += 1
+                acc.count('max_effect_class_pure_base_exempted_' + name, 1)
+            else:
+                acc.count('max_effect_class_pure_base_not_exempted_' + name, 1)
+    acc.count('max_effect_class_in_library', n_lib)
+    acc.count('max_effect_class_with_pure_base', n_pure)
+    acc.count('max_effect_class_with_pure_base_exempted', n_exempt)
+
+
+def demand_counters(d, gg, acc):
+    for u in d.units:
+        if u.cls not in gg.ARITH_CLASSES:
+            continue
+        rs = [0 if w[0] == 'c' else d.units[w[1]].out_rates[w[2]]
+              for w in u.inputs]
+        if 3 in rs:
+            acc.count('arith_units_with_demand_input')
+            if u.cls == 'UnaryOpUGen':
+                acc.count('unary_units_with_demand_input')
+            if 1 in rs:
+                acc.count('arith_units_demand_and_control_input')
+            if 2 in rs:
+                acc.count('arith_units_demand_and_audio_input')
+            if rs.count(3) > 1:
+                acc.count('arith_units_two_demand_inputs')
+
+
 def run_shard(spec, acc):
     from vf import gen_graph as gg, opcodes as oc, scgf
     fired = Counter()
@@ -623,9 +779,15 @@ def run_shard(spec, acc):
     rhos = None
     seen_wf = False
     stats = Counter()
+    kind = spec['shard'].get('kind', 'g')
+    extra = kind == 'x'
+    if extra:
+        purity_census(gg, acc)
     for i in iter_cases(spec):
-        rng = case_rng(spec['seed'], 'C01', 'g', i)
-        prog = gg.gen_program(rng, name=f'c01_{i}')
+        rng = case_rng(spec['seed'], 'C01', kind, i)
+        prog = gg.gen_program(rng, name=f'c01{"x" if extra else ""}_{i}',
+                              extra=extra)
+        prog['extra'] = extra
         sig = h64(json.dumps([prog['params'], prog['nodes']], sort_keys=True))
         f0 = sum(fired.values())
         LOST_IN_SORT[:] = []
@@ -673,6 +835,11 @@ def run_shard(spec, acc):
                           {'case': i, 'error': str(e), 'script': gg.script(prog)})
             continue
         acc.count('decoded_units', len(d.units))
+        if extra:
+            try:
+                demand_counters(d, gg, acc)
+            except (IndexError, TypeError):
+                pass            # malformed wires are reported by compare()
         for u in d.units:
             if u.cls in gg.ARITH_CLASSES:
                 acc.count('arith_units_rate_checked')
@@ -712,6 +879,9 @@ def run_shard(spec, acc):
                 and sum(fired.values()) > f0:
             acc.sample({'case': i, 'program': gg.render(prog),
                         'definition_units': [repr(u) for u in d.units]})
+    if extra:
+        acc.count('max_effect_unit_classes_unreferenced',
+                  sum(1 for k in stats if k.startswith('effect_unreferenced_')))
     for k, v in stats.items():
         acc.count(k, v)
     for k, v in fired.items():
